@@ -300,3 +300,31 @@ Definition paths_only_on_items (r : registry) : bool :=
   forallb (fun e : N * ty =>
     match t_path (snd e) with [] => true | _ => is_composite_or_variant (t_def (snd e)) end) r.
 
+
+(** ** the same tokenizer on code points (for the formatted text, which the
+    model produces as a list of code points) *)
+Inductive ctok := CW (w : list N) | CP (c : N).
+
+Definition ctok_eqb (a b : ctok) : bool :=
+  match a, b with
+  | CW x, CW y => list_eqb N.eqb x y
+  | CP x, CP y => N.eqb x y
+  | _, _ => false
+  end.
+
+(** { } ( ) < > [ ] , : ; *)
+Definition is_cpunct (c : N) : bool :=
+  existsb (N.eqb c) [123; 125; 40; 41; 60; 62; 91; 93; 44; 58; 59]%N.
+Definition is_cspace (c : N) : bool := (N.eqb c 32 || N.eqb c 10)%N.
+
+Definition cflush (w : list N) (acc : list ctok) : list ctok :=
+  match w with [] => acc | _ => CW (rev w) :: acc end.
+
+Definition cstate := (list N * list ctok)%type.
+Definition cstep (st : cstate) (c : N) : cstate :=
+  if is_cspace c then ([], cflush (fst st) (snd st))
+  else if is_cpunct c then ([], CP c :: cflush (fst st) (snd st))
+  else (c :: fst st, snd st).
+Definition crun (l : list N) (st : cstate) : cstate := fold_left cstep l st.
+Definition ctokens (l : list N) : list ctok :=
+  let st := crun l ([], []) in rev (cflush (fst st) (snd st)).
